@@ -629,7 +629,7 @@ def order(ctx, tool):
                   "is no longer independent of the run" % (k.arg, astq.text(k.value)))
     nw = astq.kw(c, "num_workers")
     ctx.check(nw is not None and astq.text(nw) == "options.num_workers", R, tool, c, "--num-workers is forwarded",
-              "--num-workers is not forwarded to the DataLoader")
+              "--num-workers is not forwarded to the DataLoader", structural=True)
 
 
 def astq_site(tool, ctx):
